@@ -328,4 +328,90 @@ theorem intoRemainders_spec {c : Cfg} (hv : PrecOk c.W c.S c.P) {x : Coder} (hx 
   have hassoc : F ++ x.remainders ++ T = f0 :: rest := by rw [List.append_assoc]; exact hres
   simp [fromRemainders, hc0, hassoc, headsNew, ethr, hf0, hfill]
 
+/-! ## how many words the constructors take for the remainders head -/
+
+theorem lt_of_pow_le_lt {a b x : Nat} (h1 : 2^a ≤ x) (h2 : x < 2^b) : a < b := by
+  rcases Nat.lt_or_ge a b with h | h
+  · exact h
+  · have := pow_mono2 h; omega
+
+/-- `from_binary` moves exactly `⌈(S-W-P)/W⌉` words from the top of the data into the
+    remainders head -/
+theorem fromBinary_consumed {c : Cfg} (hv : PrecOk c.W c.S c.P) {data : List Nat}
+    (hd : Words c.W data) {x : Coder} (h : fromBinary c data = some x) :
+    ∃ D, data = D ++ x.compressed ∧ c.S - c.W - c.P ≤ c.W * D.length ∧
+      (D.length ≠ 0 → c.W * (D.length - 1) < c.S - c.W - c.P) := by
+  obtain ⟨ethr, hthr, hle, hW⟩ := thr_eq hv
+  unfold fromBinary headsNew at h
+  simp only [ethr, if_true] at h
+  rcases hfl : fillLoop c (2^(c.S - c.W - c.P)) 1 data with _ | ⟨h', rest⟩
+  · simp [hfl] at h
+  · simp only [hfl, Option.some.injEq] at h
+    subst h
+    obtain ⟨hge, hub, _, D, hD, ⟨v, hval, hvlt⟩, _⟩ :=
+      fillLoop_spec hW (by rw [hthr]; exact hle) data 1 hd (Nat.le_refl 1) h' rest hfl
+    rw [Nat.one_mul] at hval
+    refine ⟨D, hD, ?_, ?_⟩
+    · have : h' < 2^(c.W * D.length + 1) := by rw [Nat.pow_succ]; omega
+      have := lt_of_pow_le_lt hge this
+      omega
+    · intro hne
+      rcases hub with hub | hub
+      · rw [← Nat.pow_add] at hub
+        have h1 : 2^(c.W * D.length) ≤ h' := by omega
+        have := lt_of_pow_le_lt h1 hub
+        have e : c.W * D.length = c.W * (D.length - 1) + c.W := by
+          obtain ⟨n, hn⟩ : ∃ n, D.length = n + 1 := ⟨D.length - 1, by omega⟩
+          rw [hn, Nat.mul_succ]; simp
+        omega
+      · -- no word was read at all
+        exfalso
+        have h1 : 2^c.W ≤ 2^(c.W * D.length) := pow_mono2 (by
+          have : c.W * 1 ≤ c.W * D.length := Nat.mul_le_mul_left _ (by omega)
+          omega)
+        have h2 : 2 ≤ 2^c.W := by
+          calc 2 = 2^1 := by decide
+            _ ≤ 2^c.W := pow_mono2 hW
+        omega
+
+/-- `from_compressed` takes at least one and at most `1 + ⌈(S-W-P)/W⌉` words -/
+theorem fromCompressed_consumed {c : Cfg} (hv : PrecOk c.W c.S c.P) {data : List Nat}
+    (hd : Words c.W data) {x : Coder} (h : fromCompressed c data = some x) :
+    ∃ D, data = D ++ x.compressed ∧ 1 ≤ D.length ∧
+      (2 ≤ D.length → c.W * (D.length - 2) < c.S - c.W - c.P) := by
+  obtain ⟨ethr, hthr, hle, hW⟩ := thr_eq hv
+  unfold fromCompressed headsNew at h
+  cases data with
+  | nil => simp at h
+  | cons w0 rest0 =>
+    by_cases hw0 : w0 = 0
+    · simp [hw0] at h
+    · simp only [ethr, Bool.false_eq_true, if_false, ne_eq, hw0, not_false_eq_true, if_true] at h
+      rcases hfl : fillLoop c (2^(c.S - c.W - c.P)) w0 rest0 with _ | ⟨h', rest⟩
+      · simp [hfl] at h
+      · simp only [hfl, Option.some.injEq] at h
+        subst h
+        obtain ⟨_, hub, _, D, hD, ⟨v, hval, hvlt⟩, _⟩ :=
+          fillLoop_spec hW (by rw [hthr]; exact hle) rest0 w0 hd.tail (by omega) h' rest hfl
+        refine ⟨w0 :: D, by rw [hD]; rfl, by simp, ?_⟩
+        intro h2
+        simp only [List.length_cons] at h2 ⊢
+        have hw0lt := hd.head
+        have h1 : 2^(c.W * D.length) ≤ h' := by
+          have : 1 * 2^(c.W * D.length) ≤ w0 * 2^(c.W * D.length) :=
+            Nat.mul_le_mul_right _ (by omega)
+          omega
+        rcases hub with hub | hub
+        · rw [← Nat.pow_add] at hub
+          have := lt_of_pow_le_lt h1 hub
+          have e : c.W * D.length = c.W * (D.length + 1 - 2) + c.W := by
+            obtain ⟨n, hn⟩ : ∃ n, D.length = n + 1 := ⟨D.length - 1, by omega⟩
+            rw [hn, Nat.mul_succ]; simp
+          omega
+        · exfalso
+          have h3 : 2^c.W ≤ 2^(c.W * D.length) := pow_mono2 (by
+            have : c.W * 1 ≤ c.W * D.length := Nat.mul_le_mul_left _ (by omega)
+            omega)
+          omega
+
 end CV.Chain
